@@ -66,7 +66,8 @@ def fed_query(rng, single=False):
 def model_join(rng):
     """Table(s) joined with a non-timeseries model.  Returns (text, info)."""
     r = rng
-    model = r.choice(['mindsdb.m1', 'mindsdb.m1.3', 'proj.m2', 'MINDSDB.m1', 'mindsdb.M1'])
+    model = r.choice(['mindsdb.m1', 'mindsdb.m1.3', 'proj.m2', 'MINDSDB.m1', 'mindsdb.M1', 'mindsdb.m1.007', 'proj.m2.`²`', 'mindsdb.m1.`①`', 'mindsdb.m1.`٣`',
+                      'mindsdb.m1.0', 'proj.m2.12345678901234567890'])
     malias = 'm'
     t = r.choice(['t1', 't2'])
     tbl = f'{HOME[t]}.{t}'
@@ -89,6 +90,8 @@ def model_join(rng):
             frm += f' {r.choice(["JOIN", "LEFT JOIN"])} {HOME[t3]}.{t3} AS v ON {on3}'
         else:
             frm += ' JOIN proj.m2 AS m9'
+    elif r.random() < 0.12:
+        frm += f' JOIN {r.choice(["proj.m2", "mindsdb.m1", "proj.m2.4"])} AS m9'
     conj = []
     kinds = []
     for _ in range(r.randint(0, 3)):
@@ -120,8 +123,15 @@ def model_join(rng):
     if r.random() < 0.3:
         s += f' LIMIT {r.choice([1, 5])}'
     using = {}
-    if r.random() < 0.4:
-        opts = r.sample(['a = 1', "m.b = 'x'", 'Mode = 2', 'partition_size = 2', 't.c = 3'], r.randint(1, 2))
+    two_models = ' AS m9' in frm
+    if two_models and r.random() < 0.6:
+        # per-model options for two models: equal or different partition sizes, one of them only, other options mixed in
+        a, b = r.choice([(100, 20), (2, 2), (3, None), (None, 5), (1, 1000)])
+        opts = ([f'm.partition_size = {a}'] if a else []) + ([f'm9.partition_size = {b}'] if b else []) + r.sample(['a = 1', "m9.b = 'x'"], r.randint(0, 1))
+        r.shuffle(opts)
+        s += ' USING ' + ', '.join(opts)
+    elif r.random() < 0.4:
+        opts = r.sample(['a = 1', "m.b = 'x'", 'Mode = 2', 'partition_size = 2', 't.c = 3', 'm.partition_size = 3'], r.randint(1, 2))
         s += ' USING ' + ', '.join(opts)
     return s, {'kinds': kinds, 'model': model, 'second_table': second}
 
